@@ -1941,6 +1941,42 @@ func (r *pxRun) call(st *pxState, fr *pxFrame, x *ssa.Call, k func(*pxState, *px
 	}
 	resTyp := x.Type()
 	bind := func(t *T) bool { fr.env[x] = t; return false }
+	// fmt prints an operand that has a String method through that method: a value of a module type
+	// handed to Fprintf / Sprintf / Fprint … is replaced by what its String method returns (evaluated
+	// like a helper of the module, once per operand; the call is then taken up again)
+	if sc := cc.StaticCallee(); sc != nil && sc.Pkg != nil && sc.Pkg.Pkg.Path() == "fmt" && fr.depth < r.cfg.MaxDepth+1 {
+		for ai, a := range args {
+			if !a.HasEl {
+				continue
+			}
+			for ei, el := range a.Elems {
+				if el == nil || el.Typ == nil || el.isConst() {
+					continue
+				}
+				key := "#str:" + el.String()
+				if sv, ok := st.mem[key]; ok {
+					na := *a
+					na.Elems = append([]*T{}, a.Elems...)
+					na.Elems[ei] = sv
+					args[ai] = &na
+					a = &na
+					continue
+				}
+				sm := stringerOf(r.c, el.Typ)
+				if sm == nil {
+					continue
+				}
+				elv := el
+				return r.inlineCall(st, fr, x, sm, nil, []*T{elv}, types.Typ[types.String], func(st2 *pxState, fr2 *pxFrame, res *T) {
+					st2.mem["#str:"+elv.String()] = res
+					delete(fr2.env, x)
+					if !r.call(st2, fr2, x, k) {
+						k(st2, fr2, fr2.env[x])
+					}
+				})
+			}
+		}
+	}
 	if bi, ok := cc.Value.(*ssa.Builtin); ok {
 		switch bi.Name() {
 		case "len":
@@ -3085,4 +3121,41 @@ func (c *Ctx) tokenContentInvariant() map[string]map[string]bool {
 	}
 	c.setExtra("tokenContentInvariant", out)
 	return out
+}
+
+// stringerOf: the String() string method of a named type of the module (value or pointer receiver),
+// if it has a body.
+func stringerOf(c *Ctx, t types.Type) *ssa.Function {
+	if t == nil || types.IsInterface(t) {
+		return nil
+	}
+	n, ok := t.(*types.Named)
+	if !ok {
+		if p, isP := t.(*types.Pointer); isP {
+			n, ok = p.Elem().(*types.Named)
+		}
+		if !ok {
+			return nil
+		}
+	}
+	if n.Obj().Pkg() == nil || !strings.HasPrefix(n.Obj().Pkg().Path(), modulePath) {
+		return nil
+	}
+	ms := c.Prog.MethodSets.MethodSet(t)
+	sel := ms.Lookup(n.Obj().Pkg(), "String")
+	if sel == nil {
+		return nil
+	}
+	sig, ok := sel.Type().(*types.Signature)
+	if !ok || sig.Params().Len() != 0 || sig.Results().Len() != 1 {
+		return nil
+	}
+	if b, ok := sig.Results().At(0).Type().Underlying().(*types.Basic); !ok || b.Kind() != types.String {
+		return nil
+	}
+	fn := c.Prog.MethodValue(sel)
+	if fn == nil || fn.Blocks == nil {
+		return nil
+	}
+	return fn
 }
